@@ -36,7 +36,7 @@ void vh_fill_profile(mzd_t *M, int style) {
   case 9: { /* recursive PLE with L compression over whole words: r1 pivots in the left half with r1 mod 64 not in
                {0, 32}, at least 64 further pivots in the right half, rows left below r1 + r2 */
     int n1 = ((((n - 1) / 64 + 1) >> 1)) * 64;
-    int r1 = vh_pick((int[]){7, 20, 45, 70, 100, 129}, 6), r2 = vh_pick((int[]){70, 130, 200}, 3);
+    int r1 = vh_pick((int[]){7, 20, 45, 64, 70, 100, 128, 129}, 8), r2 = vh_pick((int[]){70, 130, 200}, 3);
     if (r1 >= n1) r1 = n1 > 8 ? n1 - 7 : 1;
     if (r2 > n - n1) r2 = n - n1;
     if (r1 + r2 > m - 5) r2 = m - 5 - r1 > 1 ? m - 5 - r1 : 1;
@@ -331,6 +331,8 @@ static void trsm_case(const vh_args_t *a, int variant, int entry) {
     n = vh_pick((int[]){257, 300, 321, 384}, 4);
     w = vh_pick((int[]){1, 40, 64, 70, 130, 340, 400}, 7);
   }
+  /* right-hand sides of 8, 9, 16, 17 words: the unrolled word loops of the table-based left solves */
+  if ((variant == 2 || variant == 3) && vh_randint(0, 9) == 0) { n = vh_pick((int[]){30, 70, 130}, 3); w = vh_pick((int[]){500, 512, 576, 640, 1030, 1088}, 6); }
   int left = (variant == 2 || variant == 3);
   mzd_t *T = vh_mk(n, n, -1);
   fill_tri(T, variant == 0 || variant == 3);
@@ -389,6 +391,7 @@ static void inv_case(const vh_args_t *a, int op) {
   int n = NS[vh_randint(0, 15)];
   if (vh_randint(0, 3) == 0) n = vh_randint(1, a->tier ? 400 : 200);
   if (vh_randint(0, a->tier ? 8 : 12) == 0) n = vh_pick((int[]){362, 363, 364, 384, 400}, 5); /* trtri recursion threshold (small cache) */
+  if ((op == 2 || op == 3) && vh_randint(0, a->tier ? 10 : 20) == 0) n = vh_pick((int[]){512, 513, 576}, 3);  /* 8 / 9 words from a block to the end of the row */
   vh_ev_t e;
   mzd_t *R = NULL;
   int k = vh_randint(0, 8);
@@ -502,10 +505,11 @@ static void solve_case(const vh_args_t *a, int op) {
   vh_ev_t e;
   if (op == 0 || op == 1) {
     vh_begin(&e, op == 0 ? "solve_left" : "_solve_left");
-    vh_pi(&e, "cutoff", cutoff); vh_pi(&e, "mode", mode);
+    int chk = vh_randint(0, 3) != 0;
+    vh_pi(&e, "cutoff", cutoff); vh_pi(&e, "mode", mode); vh_pi(&e, "check", chk);
     vh_opnd(&e, "A", 'b', A); vh_opnd(&e, "B", 'b', B); vh_opnd(&e, "A0", 'i', A0);
     vh_pre(&e);
-    if (VH_CALL(&e)) e.ret = (op == 0) ? mzd_solve_left(A, B, cutoff, 1) : _mzd_solve_left(A, B, cutoff, 1);
+    if (VH_CALL(&e)) e.ret = (op == 0) ? mzd_solve_left(A, B, cutoff, chk) : _mzd_solve_left(A, B, cutoff, chk);
     VH_END(&e);
     vh_post(&e);
   } else {
@@ -522,10 +526,11 @@ static void solve_case(const vh_args_t *a, int op) {
     vh_post(&e);
     if (!e.die) {
       vh_begin(&e, op == 2 ? "pluq_solve_left" : "_pluq_solve_left");
-      vh_pi(&e, "cutoff", cutoff); vh_pi(&e, "mode", mode); vh_pi(&e, "rank", rank);
+      int chk = vh_randint(0, 3) != 0;      /* a quarter of the calls without the consistency check (verdict 0, the undefined rows are cleared) */
+      vh_pi(&e, "cutoff", cutoff); vh_pi(&e, "mode", mode); vh_pi(&e, "rank", rank); vh_pi(&e, "check", chk);
       vh_opnd(&e, "A", 'i', A); vh_opnd(&e, "B", 'b', B); vh_opnd(&e, "A0", 'i', A0);
       vh_pre(&e);
-      if (VH_CALL(&e)) e.ret = (op == 2) ? mzd_pluq_solve_left(A, rank, P, Q, B, cutoff, 1) : _mzd_pluq_solve_left(A, rank, P, Q, B, cutoff, 1);
+      if (VH_CALL(&e)) e.ret = (op == 2) ? mzd_pluq_solve_left(A, rank, P, Q, B, cutoff, chk) : _mzd_pluq_solve_left(A, rank, P, Q, B, cutoff, chk);
       VH_END(&e);
       vh_post(&e);
     }
